@@ -586,6 +586,73 @@ def getV (wf : Bool) (path : Bytes) : M Got := fun d =>
     | (.error e, d') => (.error e, d')
   else get path d
 
+/-- the loop of `get_cluster_chain_length` (mod.rs:515-536): like `get_cluster_chain_data` without the block reads -/
+def chainLenLoop : Nat → Nat → M Unit
+  | 0, _ => M.fail .badFAT
+  | fuel + 1, curr => do
+    match ← nextCluster curr with
+    | none => pure ()
+    | some nx => chainLenLoop fuel nx
+
+/-- `get_cluster_chain_length(initial)` (the `blocks` figure of `tree`'s metadata) -/
+def chainLength (initial : Nat) : M Unit := do
+  if initial = 0 then pure () else
+  let d ← M.get
+  if !clusInRng d.bpb initial then M.fail .firstClusterInvalid else
+  chainLenLoop d.bpb.clusterCountUsable initial
+
+/-- `finfo.name == "." || finfo.name == ".."`, the name as `add_file` split it from entry `finfo.idx` -/
+def isDotName (dir : Directory) (fi : FInfo) : Bool :=
+  match dir[fi.idx]? with
+  | some e =>
+    match fileNameToSplit e with
+    | some (name, _) => name == [46] || name == [46, 46]
+    | none => false
+  | none => false
+
+/-- the loop `for finfo in sorted.values()` of `tree_node` (`mt = include_meta`) and `glob_node` (`mt = false`), mod.rs:923-953 /
+972-1041; `rec` = the walk one level deeper, the `Nat` is `*visits`.  (The Rust iterates in key order, the model in entry order: the
+outcome class is the same unless some step panics, and none does — `treeNode_safe`.  `json`, `globset`, `chrono` are not modelled.) -/
+def walkItems (rec : Directory → Nat → M Nat) (mt : Bool) (dir : Directory) : List (Bytes × FInfo) → Nat → M Nat
+  | [], v => pure v
+  | kv :: rest, v =>
+    if kv.2.volumeId then walkItems rec mt dir rest v else
+    if kv.2.directory && isDotName dir kv.2 then walkItems rec mt dir rest v else do
+    let v1 ← (if kv.2.directory then
+                match kv.2.cluster1 with
+                | some ptr => do
+                  let sub ← getDirectory (some ptr)
+                  rec sub v
+                | none => pure v
+              else pure v)
+    (if mt then
+       match kv.2.cluster1 with
+       | some c => chainLength c
+       | none => pure ()
+     else pure ())
+    walkItems rec mt dir rest v1
+
+/-- `tree_node` / `glob_node` with `depthLeft` levels before the nesting cap (whose branch returns `Err`: `Gen.C12FsFlags.fatTreeCapErr`,
+`fatGlobCapErr`).  `budget` = repair `c12fs-fat-directory-visit-budget` (c9d6197): `*visits += 1; if *visits >
+cluster_count_usable() + 1 { return Err }`.  `if let Ok(sorted) = dir.build_files(..)`: an `Err` of `build_files` is an empty directory. -/
+def walkNode (budget mt : Bool) : Nat → Directory → Nat → M Nat
+  | 0, _, _ => M.fail .badFAT
+  | depthLeft + 1, dir, v => fun d =>
+    if budget && decide (v + 1 > d.bpb.clusterCountUsable + 1) then (.error .badFAT, d) else
+    match buildFiles d.labelFiles dir with
+    | .ok files => walkItems (walkNode budget mt depthLeft) mt dir files (v + 1) d
+    | .error e => if e = .panic ∨ e = .unmodelled then (.error e, d) else (.ok (v + 1), d)
+
+/-- `tree(include_meta = true)` (mod.rs:1143): `depth > 64` is refused, so 65 levels -/
+def treeV (budget : Bool) : M Nat := do
+  let root ← getRootDir
+  walkNode budget true 65 root 0
+
+/-- `glob(pattern)` for a pattern `globset` accepts (mod.rs:1133): `curr_path.len() > 64` with `curr_path = ["/"]` at the root, so 64 levels -/
+def globV (budget : Bool) : M Nat := do
+  let root ← getRootDir
+  walkNode budget false 64 root 0
+
 /-- the FAT12 / FAT16 foundations `SSDD_525_8`, `SSDD_525_9` of bpb.rs:541-569 (`replace_foundation` for 160K / 180K images) -/
 def ssdd8 : Bpb :=
   ⟨512, 1, 1, 2, 64, 0, 320, 254, 1, 8, 1, 0, 0⟩
